@@ -37,7 +37,18 @@ struct Spec {
   uint32_t nfuncs;
   bool logger, validate;
   bool static_arena;
+  uint32_t jit_options;   // jit-install: bit 0 dual mapping, 1 multiple pools, 2 fill unused, 3 immediate release, 4 small blocks
 };
+
+std::unique_ptr<JitRuntime> make_runtime(const Spec& s) {
+  JitAllocator::CreateParams params;
+  if (s.jit_options & 1) params.options |= JitAllocatorOptions::kUseDualMapping;
+  if (s.jit_options & 2) params.options |= JitAllocatorOptions::kUseMultiplePools;
+  if (s.jit_options & 4) params.options |= JitAllocatorOptions::kFillUnusedMemory;
+  if (s.jit_options & 8) params.options |= JitAllocatorOptions::kImmediateRelease;
+  if (s.jit_options & 16) params.block_size = 65536;
+  return std::unique_ptr<JitRuntime>(new JitRuntime(&params));
+}
 
 Spec spec_from(const Plan& p) {
   Spec s;
@@ -49,6 +60,7 @@ Spec spec_from(const Plan& p) {
   s.logger = p.get("logger", 0) != 0;
   s.validate = p.get("validate", 0) != 0;
   s.static_arena = p.get("static", 0) != 0;
+  s.jit_options = uint32_t(p.get("jit_options", 0));
   if (s.kind == kWJit) s.target = gen::Target::kX64;
   return s;
 }
@@ -70,7 +82,7 @@ struct Env {
     xa.reset(new x86::Assembler()); xb.reset(new x86::Builder()); xc.reset(new x86::Compiler());
     aa.reset(new a64::Assembler()); ab.reset(new a64::Builder()); ac.reset(new a64::Compiler());
     logger.reset(new StringLogger());
-    if (s.kind == kWJit) rt.reset(new JitRuntime());
+    if (s.kind == kWJit) rt = make_runtime(s);
   }
   BaseEmitter& emitter(gen::Target t, int which) {
     if (t == gen::Target::kA64) return which == 0 ? static_cast<BaseEmitter&>(*aa) : which == 1 ? static_cast<BaseEmitter&>(*ab) : static_cast<BaseEmitter&>(*ac);
@@ -351,7 +363,7 @@ void faulted_run(const Plan& plan, const Spec& s, const Outcome& golden, const s
   // Every object involved can still be reset / reused; repeating the work produces exactly the failure-free output.
   // (A JitRuntime whose allocator could not even be constructed reports that through is_initialized(); such an object
   // was never created successfully and is replaced.)
-  if (env->rt && !env->rt->allocator().is_initialized()) { env->rt.reset(new JitRuntime()); sim::count("c15.probe.runtime_recreated"); }
+  if (env->rt && !env->rt->allocator().is_initialized()) { env->rt = make_runtime(s); sim::count("c15.probe.runtime_recreated"); }
   CodeHolder& code = *env->code;
   Outcome redo;
   if (aftermath == 1) {
@@ -459,6 +471,7 @@ void fill_common(Plan& p, Rng& cfg, bool thorough) {
   p.set("logger", int64_t(cfg.below(2)));
   p.set("validate", int64_t(cfg.below(2)));
   p.set("static", cfg.chance(1, 4) ? 1 : 0);
+  p.set("jit_options", cfg.chance(1, 3) ? 0 : int64_t(cfg.below(32)));
 }
 
 Plan generate_sweep(uint64_t seed, bool thorough) {
